@@ -1,5 +1,6 @@
 import PyxModel.Interp.Decode
 import Gen.InterpShape
+import Proofs.InterpEnvInv
 
 /-!
   C04 source tie, statement structure of the interpreter's handlers: a GENERIC interpreter of the first-order IR that
@@ -1002,5 +1003,371 @@ theorem unary_eq (C : Ctx) (rec : Oracle) (op : UnOp) (e : Expr) :
 
 theorem selected_eq (C : Ctx) (rec : Oracle) : evalStep C rec .selected = handlerE C {} accept_SelectedAccessNode := by
   ishape [accept_SelectedAccessNode]
+
+/-! ### select related by (+ where) -/
+
+theorem querySt_ok {α : Type} (a : α) : querySt (fun _ => (.ok a : Except Err α)) = pure a := rfl
+
+/-- two queries of the unchanged state are one query -/
+theorem querySt_bind {α β γ : Type} (f : State → Except Err α) (g : α → State → Except Err β) (K : β → M γ) :
+    (querySt f >>= fun a => querySt (g a) >>= K) =
+      (querySt (fun st => match f st with | .error e => .error e | .ok a => g a st) >>= K) := by
+  funext c
+  simp only [bind_run, querySt]
+  cases f c.st <;> rfl
+
+/-- the loop `for step in self.accept(node.navigation_chain): chain = step(chain)` is the chain navigation of `Spec`, whatever
+    follows it (a continuation that reads the locals `chain` and `where` only) -/
+theorem steps_loop {α : Type} (C : Ctx) (body : NavStep → Locals → M (Locals × Sig))
+    (hb : ∀ s L m l, L.get "chain" = .chain m l → ∃ g : List Inst → Locals,
+      (∀ l', (g l').get "chain" = .chain m l' ∧ (g l').get "where" = L.get "where") ∧
+      body s L = do let l' ← querySt (fun st => navStepList C st l s); pure (g l', .next)) :
+    ∀ (steps : List NavStep) (L : Locals) (m : Bool) (l : List Inst), L.get "chain" = .chain m l →
+    ∀ (K : Locals × Sig → M α) (K0 : List Inst → M α),
+      (∀ L' l', L'.get "chain" = .chain m l' → L'.get "where" = L.get "where" → K (L', .next) = K0 l') →
+      (iLoop body steps L >>= K) = (querySt (fun st => navChain C st l steps) >>= K0)
+  | [], L, m, l, hL, K, K0, hK => by
+    simp only [iLoop, pure_bind, navChain, querySt_ok]
+    exact hK L l hL rfl
+  | s :: rest, L, m, l, hL, K, K0, hK => by
+    obtain ⟨g, hg, hbody⟩ := hb s L m l hL
+    simp only [iLoop, hbody, bind_assoc, pure_bind, navChain]
+    have ih := fun l' => steps_loop C body hb rest (g l') m l' (hg l').1 K K0
+      (fun L' l'' h1 h2 => hK L' l'' h1 (h2.trans (hg l').2))
+    simp only [ih]
+    funext c
+    simp only [bind_run, querySt]
+    cases navStepList C c.st l s <;> rfl
+
+def selRelNode (many : Bool) (v : String) (h : M Val) (chain : List NavStep) (wh : Option (M Val)) : Node :=
+  { str := fun f => ([("variable_name", v)].lookup f).getD ""
+    flag := fun f => f == "many" && many
+    acceptE := fun f => if f = "handle" then some h else if f = "where_clause" then wh else none
+    steps := fun f => if f = "navigation_chain" then chain else [] }
+
+theorem get_cons_ne (L : Locals) (x y : String) (v : PV) (h : (x == y) = false) : Locals.get ((y, v) :: L) x = L.get x := by
+  simp only [Locals.get, List.lookup, h]
+theorem get_cons_eq (L : Locals) (x : String) (v : PV) : Locals.get ((x, v) :: L) x = v := by
+  simp only [Locals.get, List.lookup, BEq.rfl, Option.getD_some]
+
+/-- the body of the step loop, as the generic interpreter unfolds it -/
+theorem stepBody_ok (C : Ctx) : ∀ (s : NavStep) (L : Locals) (m : Bool) (l : List Inst), L.get "chain" = .chain m l →
+    ∃ g : List Inst → Locals,
+      (∀ l', (g l').get "chain" = .chain m l' ∧ (g l').get "where" = L.get "where") ∧
+      (callLocal C (("step", PV.step s) :: L) "step" ["chain"] >>= fun v =>
+          pure (("chain", v) :: ("step", PV.step s) :: L, Sig.next)) =
+        (querySt (fun st => navStepList C st l s) >>= fun l' => pure (g l', Sig.next)) := by
+  intro s L m l hL
+  refine ⟨fun l' => ("chain", .chain m l') :: ("step", .step s) :: L, fun l' => ⟨get_cons_eq _ _ _, ?_⟩, ?_⟩
+  · rw [get_cons_ne _ _ _ _ (by decide), get_cons_ne _ _ _ _ (by decide)]
+  · simp only [callLocal, get_cons_eq, get_cons_ne _ "chain" "step" _ (by decide), hL, bind_assoc, pure_bind]
+
+theorem selectRelated_eq (C : Ctx) (rec : Oracle) (many : Bool) (v : String) (h : Expr) (chain : List NavStep) :
+    execStep C rec (.selectRelated many v h chain none) =
+      handlerS C (selRelNode many v (rec.eval h) chain none) accept_SelectRelatedNode := by
+  simp only [handlerS, accept_SelectRelatedNode, iStmts, execStep]
+  cases many <;>
+  ishape [selRelNode, Bool.and_true, Bool.and_false] <;>
+  (apply bind_congr; intro hv; apply bind_congr; intro start; symm) <;>
+  (refine steps_loop C _ (stepBody_ok C) chain _ _ start (get_cons_eq _ _ _) _ _ ?_) <;>
+  (intro L' l' h1 _; simp only [thenSig_next, callLocal, h1, bind_assoc, pure_bind, selRes_none rec]) <;>
+  (apply bind_congr; intro r; ishape [])
+
+theorem selectRelatedWhere_eq (C : Ctx) (rec : Oracle) (many : Bool) (v : String) (h : Expr) (chain : List NavStep) (wh : Expr) :
+    execStep C rec (.selectRelated many v h chain (some wh)) =
+      handlerS C (selRelNode many v (rec.eval h) chain (some (rec.eval wh))) accept_SelectRelatedWhereNode := by
+  simp only [handlerS, accept_SelectRelatedWhereNode, iStmts, execStep]
+  cases many <;>
+  ishape [selRelNode, closureRun, Bool.and_true, Bool.and_false] <;>
+  (apply bind_congr; intro hv; apply bind_congr; intro start; symm) <;>
+  (refine steps_loop C _ (stepBody_ok C) chain _ _ start (get_cons_eq _ _ _) _ _ ?_) <;>
+  (intro L' l' h1 h2
+   rw [get_cons_ne _ _ _ _ (by decide), get_cons_ne _ _ _ _ (by decide), get_cons_eq] at h2
+   simp only [thenSig_next, callLocal, closureOf, h1, h2, bind_assoc, pure_bind, selRes_some' rec]) <;>
+  (apply bind_congr; intro r; ishape [])
+/-! ### the symbol table: the generated `symtab` record, interpreted over the Python scope (blocks in ENTRY order) -/
+
+/-- `scope_head`: the blocks in the order they were entered (Python list; `Spec`'s `Env` is this list reversed) -/
+abbrev PScope := List (List (String × Val))
+
+def searchList (o : SearchOrder) (sc : PScope) : PScope :=
+  match o with
+  | .firstToLast => sc
+  | .lastToFirst => sc.reverse
+
+/-- `for block in <order>: if name in block: return block[name]` -/
+def pyFind (sh : SymtabShape) (sc : PScope) (x : String) : Option Val :=
+  (searchList sh.findSearch sc).findSome? (fun b => b.lookup x)
+
+/-- the first block of the list that holds `x` gets the new value in place (`block[name] = handle; return`) -/
+def updFirst (x : String) (v : Val) : PScope → Option PScope
+  | [] => none
+  | b :: rest => if (b.lookup x).isSome then some (blockSet x v b :: rest) else (updFirst x v rest).map (b :: ·)
+
+/-- `install_symbol`: search, overwrite in place on a hit; on a miss the name is created in the block at `installMissAt`
+    (no block at all: Python raises IndexError; here the scope is returned unchanged, the theorems carry the guard) -/
+def pyInstall (sh : SymtabShape) (sc : PScope) (x : String) (v : Val) : PScope :=
+  let hit := match sh.installSearch, sh.installHit with
+    | .firstToLast, .overwriteInPlace => updFirst x v sc
+    | .lastToFirst, .overwriteInPlace => (updFirst x v sc.reverse).map List.reverse
+  match hit with
+  | some sc' => sc'
+  | none => match sh.installMissAt with
+    | .last => (match sc.reverse with | [] => [] | b :: rest => (((x, v) :: b) :: rest).reverse)
+    | .first => (match sc with | [] => [] | b :: rest => ((x, v) :: b) :: rest)
+
+def pyEnterBlock (sh : SymtabShape) (sc : PScope) : PScope :=
+  match sh.enterBlockAt with | .last => sc ++ [[]] | .first => [] :: sc
+def pyLeaveBlock (sh : SymtabShape) (sc : PScope) : PScope :=
+  match sh.leaveBlockAt with | .last => sc.dropLast | .first => sc.tail
+def pyNewScope (sh : SymtabShape) : PScope := if sh.scopeStartsWithOneBlock then [[]] else []
+
+/-- `find_symbol` of a walker: self, the scope, then what the record says happens on a miss -/
+def pyLookupVar (sh : SymtabShape) (C : Ctx) (x : String) : M Val := do
+  let fr ← getFr
+  if selfHit fr x then pure fr.self
+  else
+    match pyFind sh fr.env.reverse x with
+    | some v => pure v
+    | none =>
+      match sh.findMiss with
+      | .domainConstant =>
+        match C.consts.lookup x with
+        | some v => pure v
+        | none => fail ("variable " ++ x ++ " is not set")
+
+/-! the invariant: a name is held by at most one block of the scope, once -/
+
+def EnvUnique (env : Env) : Prop := (envNames env).flatten.Nodup
+
+theorem lookup_none_iff (b : List (String × Val)) (x : String) : b.lookup x = none ↔ x ∉ b.map Prod.fst := by
+  induction b with
+  | nil => simp
+  | cons p rest ih =>
+    by_cases h : x = p.1
+    · subst h; simp [List.lookup]
+    · have : (x == p.1) = false := by simpa using h
+      simp [List.lookup, this, ih, h]
+
+theorem envLookup_findSome (x : String) : ∀ env, envLookup env x = env.findSome? (fun b => b.lookup x)
+  | [] => rfl
+  | b :: rest => by
+    unfold envLookup
+    rw [List.findSome?_cons]
+    cases h : b.lookup x with
+    | some v => rfl
+    | none => exact envLookup_findSome x rest
+
+theorem envLookup_none_iff (x : String) (env : Env) : envLookup env x = none ↔ x ∉ (envNames env).flatten := by
+  induction env with
+  | nil => simp [envLookup, envNames]
+  | cons b rest ih =>
+    unfold envLookup
+    cases h : b.lookup x with
+    | some v =>
+      have hx : x ∈ b.map Prod.fst :=
+        Classical.byContradiction (fun hn => by rw [(lookup_none_iff b x).2 hn] at h; cases h)
+      simp only [envNames, List.map_cons, List.flatten_cons, List.mem_append]
+      constructor
+      · intro h'; cases h'
+      · intro h'; exact absurd (Or.inl hx) h'
+    | none =>
+      have hb := (lookup_none_iff b x).1 h
+      simp only [envNames, List.map_cons, List.flatten_cons, List.mem_append, not_or] at *
+      simp [ih, hb]
+
+theorem envUnique_cons (b : List (String × Val)) (rest : Env) :
+    EnvUnique (b :: rest) ↔ (b.map Prod.fst).Nodup ∧ EnvUnique rest ∧
+      ∀ x, x ∈ b.map Prod.fst → x ∉ (envNames rest).flatten := by
+  simp only [EnvUnique, envNames, List.map_cons, List.flatten_cons, List.nodup_append]
+  constructor
+  · rintro ⟨h1, h2, h3⟩; exact ⟨h1, h2, fun x hx hr => h3 x hx x hr rfl⟩
+  · rintro ⟨h1, h2, h3⟩; exact ⟨h1, h2, fun x hx y hy hxy => h3 x hx (hxy ▸ hy)⟩
+
+/-- under the invariant the search order does not matter -/
+theorem findSome_reverse (x : String) : ∀ env : Env, EnvUnique env →
+    env.findSome? (fun b => b.lookup x) = env.reverse.findSome? (fun b => b.lookup x)
+  | [], _ => rfl
+  | b :: rest, hu => by
+    obtain ⟨_, hr, hd⟩ := (envUnique_cons b rest).1 hu
+    have ih := findSome_reverse x rest hr
+    rw [List.reverse_cons, List.findSome?_append, List.findSome?_cons, ← ih]
+    cases h : b.lookup x with
+    | some v =>
+      have hx : x ∈ b.map Prod.fst := by
+        apply Classical.byContradiction; intro hn; rw [(lookup_none_iff b x).2 hn] at h; cases h
+      have := (envLookup_none_iff x rest).2 (hd x hx)
+      rw [envLookup_findSome] at this
+      simp [this, h]
+    | none => simp [h]
+
+
+theorem envLookup_eq (env : Env) (x : String) (hu : EnvUnique env) : envLookup env x = pyFind symtab env.reverse x := by
+  rw [envLookup_findSome, findSome_reverse x env hu]
+  rfl
+
+theorem lookupVar_eq (C : Ctx) (x : String) (c : Cfg) (hu : EnvUnique c.fr.env) :
+    lookupVar C x c = pyLookupVar symtab C x c := by
+  unfold lookupVar pyLookupVar
+  rw [bnd_ok (show getFr c = some (.ok (c.fr, c)) from rfl), bnd_ok (show getFr c = some (.ok (c.fr, c)) from rfl)]
+  rw [envLookup_eq _ _ hu]
+  rfl
+
+/-! install -/
+
+theorem updFirst_none (x : String) (v : Val) : ∀ sc : PScope, (∀ b ∈ sc, b.lookup x = none) → updFirst x v sc = none
+  | [], _ => rfl
+  | b :: rest, h => by
+    have hb := h b (by simp)
+    simp only [updFirst, hb, Option.isSome_none, Bool.false_eq_true, ↓reduceIte,
+      updFirst_none x v rest (fun b' hb' => h b' (by simp [hb'])), Option.map_none]
+
+theorem updFirst_append (x : String) (v : Val) (l2 : PScope) : ∀ l1 : PScope,
+    updFirst x v (l1 ++ l2) = match updFirst x v l1 with
+      | some l1' => some (l1' ++ l2)
+      | none => (updFirst x v l2).map (l1 ++ ·)
+  | [] => by simp [updFirst]
+  | b :: rest => by
+    simp only [List.cons_append, updFirst]
+    by_cases h : (b.lookup x).isSome
+    · simp [h]
+    · simp only [h, Bool.false_eq_true, ↓reduceIte, updFirst_append x v l2 rest]
+      cases updFirst x v rest <;> simp [Option.map]
+      cases updFirst x v l2 <;> simp
+
+theorem lookup_none_of_notMem (x : String) (env : Env) (h : x ∉ (envNames env).flatten) : ∀ b ∈ env, b.lookup x = none := by
+  intro b hb
+  apply (lookup_none_iff b x).2
+  intro hx
+  apply h
+  simp only [envNames, List.mem_flatten, List.mem_map]
+  exact ⟨_, ⟨b, hb, rfl⟩, hx⟩
+
+/-- a hit: the block the OUTERMOST-first search of the source updates is the block `Spec` updates -/
+theorem updFirst_hit (x : String) (v : Val) : ∀ env : Env, EnvUnique env → (envLookup env x).isSome →
+    updFirst x v env.reverse = some (envUpdate x v env).reverse
+  | [], _, h => by simp [envLookup] at h
+  | b :: rest, hu, h => by
+    obtain ⟨_, hr, hd⟩ := (envUnique_cons b rest).1 hu
+    rw [List.reverse_cons, updFirst_append]
+    unfold envUpdate
+    cases hb : b.lookup x with
+    | some w =>
+      have hx : x ∈ b.map Prod.fst :=
+        Classical.byContradiction (fun hn => by rw [(lookup_none_iff b x).2 hn] at hb; cases hb)
+      have hnone := updFirst_none x v rest.reverse
+        (fun b' hb' => lookup_none_of_notMem x rest (hd x hx) b' (List.mem_reverse.1 hb'))
+      simp [hnone, updFirst, hb]
+    | none =>
+      have h' : (envLookup rest x).isSome := by
+        unfold envLookup at h; rw [hb] at h; exact h
+      simp [updFirst_hit x v rest hr h']
+
+theorem envInstall_eq (env : Env) (x : String) (v : Val) (hu : EnvUnique env) (hne : env ≠ []) :
+    (envInstall env x v).reverse = pyInstall symtab env.reverse x v := by
+  unfold envInstall
+  cases h : (envLookup env x).isSome with
+  | true =>
+    simp only [↓reduceIte, pyInstall, symtab, updFirst_hit x v env hu h]
+  | false =>
+    have hn : envLookup env x = none := by
+      cases h' : envLookup env x with
+      | none => rfl
+      | some w => rw [h'] at h; cases h
+    have hnone := updFirst_none x v env.reverse
+      (fun b' hb' => lookup_none_of_notMem x env ((envLookup_none_iff x env).1 hn) b' (List.mem_reverse.1 hb'))
+    cases env with
+    | nil => exact absurd rfl hne
+    | cons b rest =>
+      simp only [Bool.false_eq_true, ↓reduceIte, pyInstall, symtab, hnone, List.reverse_reverse]
+
+theorem blocks_eq (env : Env) :
+    (([] : List (String × Val)) :: env).reverse = pyEnterBlock symtab env.reverse ∧
+    env.tail.reverse = pyLeaveBlock symtab env.reverse ∧
+    (mkFrame .function [] .none).env.reverse = pyNewScope symtab := by
+  refine ⟨by simp [pyEnterBlock, symtab], ?_, rfl⟩
+  cases env with
+  | nil => rfl
+  | cons b rest => simp [pyLeaveBlock, symtab]
+
+/-! the invariant is kept by every step of `Spec` -/
+
+def Ruq (c c' : Cfg) : Prop := EnvUnique c.fr.env → EnvUnique c'.fr.env
+
+theorem envInstall_unique (env : Env) (x : String) (v : Val) (hu : EnvUnique env) : EnvUnique (envInstall env x v) := by
+  unfold envInstall
+  cases h : (envLookup env x).isSome with
+  | true =>
+    simp only [↓reduceIte]
+    unfold EnvUnique
+    rw [envUpdate_names]
+    exact hu
+  | false =>
+    have hn : envLookup env x = none := by
+      cases h' : envLookup env x with
+      | none => rfl
+      | some w => rw [h'] at h; cases h
+    have hx := (envLookup_none_iff x env).1 hn
+    simp only [Bool.false_eq_true, ↓reduceIte]
+    cases env with
+    | nil => simp [EnvUnique, envNames]
+    | cons b rest =>
+      simp only [EnvUnique, envNames, List.map_cons, List.flatten_cons, List.cons_append, List.nodup_cons] at *
+      exact ⟨hx, hu⟩
+
+theorem setEnv_inv {c c' : Cfg} {env : Env} {a : Unit} (h : setEnv env c = some (.ok (a, c'))) : c'.fr.env = env := by
+  simp [setEnv] at h
+  rw [← h]
+
+theorem ruq_rel : EnvRel Ruq where
+  po := ⟨fun _ h => h, fun _ _ _ h1 h2 h => h2 (h1 h)⟩
+  ofRfr := fun h hu => by unfold Rfr at h; rw [h]; exact hu
+  install := fun x v c a c' h hu => by
+    unfold install at h
+    obtain ⟨fr, c1, h1, h2⟩ := bind_ok_inv h
+    simp [getFr] at h1
+    obtain ⟨rfl, rfl⟩ := h1
+    rw [setEnv_inv h2]
+    exact envInstall_unique _ x v hu
+  stateOnly := fun hm c a c' h hu => by rw [hm c a c' h]; exact hu
+  setRet := fun v c a c' h hu => by
+    simp [setRet] at h
+    rw [← h]; exact hu
+  push := fun c a c' h hu => by
+    unfold pushBlock at h
+    obtain ⟨fr, c1, h1, h2⟩ := bind_ok_inv h
+    simp [getFr] at h1
+    obtain ⟨rfl, rfl⟩ := h1
+    rw [setEnv_inv h2]
+    simpa [EnvUnique, envNames] using hu
+  pop := fun c a c' h hu => by
+    unfold popBlock at h
+    obtain ⟨fr, c1, h1, h2⟩ := bind_ok_inv h
+    simp [getFr] at h1
+    obtain ⟨rfl, rfl⟩ := h1
+    rw [setEnv_inv h2]
+    cases he : c.fr.env with
+    | nil => simp [EnvUnique, envNames]
+    | cons b rest =>
+      rw [he] at hu
+      exact ((envUnique_cons b rest).1 hu).2.1
+
+/-- every statement, with any amount of fuel, keeps the names of the scope unique; every body starts with them unique -/
+theorem unique_run (C : Ctx) (n : Nat) (s : Interp.Stmt) (c : Cfg) (o : Out) (c' : Cfg)
+    (h : (run C n).exec s c = some (.ok (o, c'))) (hu : EnvUnique c.fr.env) : EnvUnique c'.fr.env :=
+  inv_run ruq_rel C n s c o c' h hu
+
+theorem unique_body (C : Ctx) (n : Nat) (body : Block) (c : Cfg) (c' : Cfg)
+    (h : runBody (run C n) body c = some (.ok ((), c'))) (hu : EnvUnique c.fr.env) : EnvUnique c'.fr.env := by
+  unfold runBody at h
+  obtain ⟨o, c1, h1, h2⟩ := bind_ok_inv h
+  have h3 := inv_execBlock ruq_rel (r := run C n) (fun e => rfr_run C n e) (fun s => inv_run ruq_rel C n s) body c o c1 h1 hu
+  cases o <;> first
+    | (have : c' = c1 := by (have := neutral_pure () c1 () c' h2; exact this)
+       rw [this]; exact h3)
+    | (simp [M.fail] at h2)
+
+theorem unique_start (kind : WalkerKind) (kw : List (String × Val)) (self : Val) : EnvUnique (mkFrame kind kw self).env := by
+  simp [mkFrame, EnvUnique, envNames]
 
 end Pyx.IShape
